@@ -147,7 +147,7 @@ func cmdTargets(fs *flag.FlagSet) {
 	layouts := fs.Int("layouts", 2, "layouts")
 	shards := fs.Int("shards", 8, "shards")
 	fs.Parse(os.Args[2:])
-	startWatchdog(20 * time.Second)
+	startWatchdog(60 * time.Second)
 	if *worlds != "" {
 		tw := newTraceWriter(*out + ".w.ndjson")
 		wt := newWatch()
